@@ -30,6 +30,7 @@ NoVars == << <<"-", "-">> >>
 
 GInit == /\ Init /\ last = [d \in Dirs |-> NoVars]
          /\ foc \in (IF Focus = "mixed" THEN {"render", "store", "conc"} ELSE {Focus})
+         /\ foc = "conc" => Cardinality({k \in Keys : store[k] # 0}) >= 2     \* something to look up
          /\ foc = "conc" => backend = "file"        \* the concurrent runs hammer the file backend (no HTTP round trips)
 
 G_Process(e, i) == /\ VarCat[i] # last[DirOf(e)]
@@ -63,11 +64,13 @@ RenderNext ==
   \/ \E e \in UpdEntries, i \in UpdIds : G_Update(e, i)
 
 \* read-only, undisturbed requests: the material of a concurrent stress run (dealt to several goroutines by the driver)
+\* (mostly look-ups of candidates that exist: those are the answers a disturbed store reading gets wrong)
 ConcNext ==
-  \/ \E e \in Askable, i \in VarIds : G_Process(e, i)
-  \/ \E e \in {"D1e", "S1m", "D2f"} : G_Raw(e)
+  \/ \E e \in {"D1f", "S1m", "D2e"}, i \in VarIds \cap {2, 4} : G_Process(e, i)
+  \/ G_Raw("D1e")
   \/ \E k \in Keys : G_Resolve(k, {})
-  \/ \E k \in Keys : G_Resolve(k, {})
+  \/ \E k \in Keys : SpecResolve(XQ(k), Existing(store)) # NotFound /\ G_Resolve(k, {})
+  \/ \E k \in Keys : store[k] # 0 /\ G_GetX(k, {})
   \/ \E k \in Keys : G_GetX(k, {})
 
 GNext == \/ foc = "conc" /\ ConcNext /\ UNCHANGED foc
